@@ -14,7 +14,10 @@ CbT == << [contains |-> "confirm", notcontains |-> "", re |-> "", insens |-> TRU
           [contains |-> "", notcontains |-> "", re |-> "digit", insens |-> FALSE, once |-> FALSE, complete |-> FALSE, reset |-> TRUE],
           [contains |-> "", notcontains |-> "more", re |-> "hashend", insens |-> TRUE, once |-> FALSE, complete |-> TRUE, reset |-> FALSE],
           [contains |-> "finished", notcontains |-> "", re |-> "", insens |-> TRUE, once |-> FALSE, complete |-> TRUE, reset |-> FALSE],
-          [contains |-> "DONE", notcontains |-> "", re |-> "", insens |-> FALSE, once |-> FALSE, complete |-> TRUE, reset |-> FALSE] >>
+          [contains |-> "DONE", notcontains |-> "", re |-> "", insens |-> FALSE, once |-> FALSE, complete |-> TRUE, reset |-> FALSE],
+          \* 10: keeps its output and may fire only once; 11: a text OR a pattern (either one triggers)
+          [contains |-> "yes/no", notcontains |-> "", re |-> "", insens |-> TRUE,  once |-> TRUE, complete |-> FALSE, reset |-> FALSE],
+          [contains |-> "(yes/no)", notcontains |-> "", re |-> "digit", insens |-> TRUE, once |-> FALSE, complete |-> FALSE, reset |-> TRUE] >>
 Segs == << "confirm-q", "password-q", "yesno-q", "digit-line", "plain", "more", "finished", "done-upper", "done-lower", "password-again", "two-triggers",
           "pw-upper-q", "more-upper" >>       \* the excluded text in capitals: an insensitive not-contains must still see it
 \* directed part (the first 27 scenarios): for every template its own trigger shown twice (a once-callback must not fire again,
@@ -26,13 +29,22 @@ Directed(m) == LET t == (m % 9) + 1
                IN [id |-> m,
                    cbs |-> CASE v = 0 -> << CbT[t] >> [] v = 1 -> << CbT[t], CbT[8] >> [] OTHER -> << CbT[t], Pick(CbT, m, 11) >>,
                    nexttimeout |-> CASE v = 0 -> << FALSE >> [] OTHER -> << FALSE, Below(3, m, 21) = 0 >>,
-                   segs |-> CASE v = 0 -> << Trig[t], Trig[t] >> [] v = 1 -> << Trig[t], Trig[t], "finished" >> [] OTHER -> << Trig[t], Anti[t], Trig[t] >>]
+                   segs |-> CASE v = 0 -> << Trig[t], Trig[t] >> [] v = 1 -> << Trig[t], Trig[t], "finished" >> [] OTHER -> << Trig[t], Anti[t], Trig[t] >>,
+                   mute |-> FALSE]
 Random(m) == LET nc == 1 + Below(3, m, 1)
               ns == 2 + Below(3, m, 2)
           IN [id |-> m, cbs |-> [j \in 1..nc |-> Pick(CbT, m, 10 + j)],
               \* per callback: does it carry a next-timeout (the timeout for what follows its firing)?
-              nexttimeout |-> [j \in 1..nc |-> Below(3, m, 20 + j) = 0], segs |-> [j \in 1..ns |-> Pick(Segs, m, 30 + j)]]
-Scn(m) == IF m < 27 THEN Directed(m) ELSE Random(m)
+              nexttimeout |-> [j \in 1..nc |-> Below(3, m, 20 + j) = 0], segs |-> [j \in 1..ns |-> Pick(Segs, m, 30 + j)],
+              mute |-> Below(5, m, 40) = 0]
+\* three more: a callback that keeps its output fires and the device then says nothing more (it must fire again at once - or end the
+\* send with the "already triggered" error when it may fire only once); a text-or-pattern callback triggered by the pattern alone
+Directed2(m) == [id |-> m,
+                 cbs |-> CASE m = 27 -> << CbT[5] >> [] m = 28 -> << CbT[10] >> [] OTHER -> << CbT[11], CbT[8] >>,
+                 nexttimeout |-> CASE m = 29 -> << FALSE, FALSE >> [] OTHER -> << FALSE >>,
+                 segs |-> CASE m = 29 -> << "digit-line", "finished" >> [] OTHER -> << "yesno-q" >>,
+                 mute |-> m # 29]      \* the device says nothing more after its last piece of output
+Scn(m) == IF m < 27 THEN Directed(m) ELSE IF m < 30 THEN Directed2(m) ELSE Random(m)
 Init == n = 0
 Next == n < Count /\ n' = n + 1 /\ PrintT("SCN " \o ToJson(Scn(n)))
 Spec == Init /\ [][Next]_n
